@@ -17,7 +17,7 @@ M = {
  "adaptive neighbourhood": ("C07", "_set_adaptive_neighborhood_size indexed before testing k < n_time: IndexError for 4 points, size 2"),
  "rate-based recurrence": ("C07", "missing-value states marked recurrent under recurrence_rate / local_recurrence_rate"),
  "joint and inter-system": ("C07", "JointRecurrencePlot.N = 20 but JR 17x17 with lag 3; ISRN with embedding raised ValueError"),
- "sequential RQA": ("C08", "float eps vs double distance: threshold 0.7 on [0,.7,0,.7,.7,0] gave different histograms in sparse_rqa mode"),
+ "sequential RQA compares": ("C08", "float eps vs double distance: threshold 0.7 on [0,.7,0,.7,.7,0] gave different histograms in sparse_rqa mode"),
  "threshold_from_link_density": ("C09", "zero-diagonal similarity: requested density 0.0 realised 0.167"),
  "integer lag index": ("C10", "information_transfer(lag_mode='all') raised IndexError (float index)"),
  "internal_adjacency": ("C04 C11", "internal_adjacency([4,0,3]) returned the block in sorted order"),
@@ -39,6 +39,9 @@ M = {
  "n_bins < 1": ("C20", "Surrogates.test_mutual_information(n_bins=0) wrote outside the (empty) histograms"),
  "repeated or doubly oriented": ("C05", "Network(edge_list=net.edge_list(), n_nodes=N) (both orientations) gave adjacency entries 2 and doubled n_links"),
  "single-node network": ("C05", "Network(adjacency=[[0]]) raised ZeroDivisionError in the link density"),
+ "horizontal visibility graph keeps": ("C14", "VisibilityGraph([3,1,nan,1,3], missing_values=True, horizontal=True): the missing sample was linked to nodes 0, 1 and 3"),
+ "records the new threshold": ("C01", "RecurrencePlot(sparse_rqa=True).set_fixed_threshold(t) left self.threshold unchanged: sequential RQA values stale"),
+ "recomputes the missing-value indices": ("C01", "RecurrencePlot(missing_values=True): assigning a new embedding kept the old missing_value_indices"),
  "vanishing Fourier amplitudes": ("C15", "refined_AAFT_surrogates returned NaN rows when a Fourier coefficient of the iterate was exactly zero (e.g. [1,-1,2,-2,3,-3,0,0])"),
 }
 fixed = []
@@ -58,6 +61,12 @@ known = [
  {"property": "C10", "match": r"^bounded:mutual_information/binning-lagged-norm$", "what": "binned MI with tau_max > 0 normalises entropies by T instead of T - tau_max (factor 0.9 for T=60, tau_max=6)"},
  {"property": "C10", "match": r"^bounded:SpearmanClimateNetwork/ties-average-rank$", "what": "SpearmanClimateNetwork ranks with double argsort (ties broken arbitrarily): rho 0.857 instead of 0.8"},
  {"property": "C10", "match": r"^bounded:mutual_information/gauss-perfect-correlation$", "what": "Gaussian MI -0.5 log(1-r^2) is NaN when rounding gives |r| > 1 (exactly collinear columns)"},
+ {"property": "C01", "match": r"^bounded:InterSystemRecurrenceNetwork\.set_fixed_(threshold|recurrence_rate)/fresh-twin$", "what": "InterSystemRecurrenceNetwork.set_fixed_threshold/_recurrence_rate called after construction replace rp_x/rp_y/crp_xy but not the adjacency: lengths 7 and 6, thresholds (1,1,1) then set_fixed_threshold((1.6,1.4,1.8)) gives n_links 56 vs 74 fresh"},
+ {"property": "C01", "match": r"^bounded:HilbertClimateNetwork\.set_(threshold|link_density|non_local)/directed-fresh-twin$", "what": "HilbertClimateNetwork(directed=True): the inherited regenerating setters drop the phase-direction mask (22 links vs 11 fresh)"},
+ {"property": "C01", "match": r"^bounded:ClimateNetwork\.del_link_attribute/derived-attribute-recomputed$", "what": "after del_link_attribute('inv_correlation_distance') the cached inv_correlation_distance() does not reinstall the link attribute and correlation_distance_weighted_closeness() raises"},
+ {"property": "C06", "match": r"^bounded:Surrogates\.test_threshold_significance/caller-array-unchanged$", "what": "Surrogates keeps the caller's array and test_threshold_significance normalises it in place (finding #11)"},
+ {"property": "C06", "match": r"^bounded:(Data\.rescale|GeoGrid\.region_indices|GeoNetwork\.latlon2cartesian)/argument-unchanged$", "what": "Data.rescale, GeoGrid.region_indices and GeoNetwork.latlon2cartesian write into their array arguments (finding #30)"},
+ {"property": "C06", "match": r"^bounded:Surrogates\.twin_surrogates/(no-interference|object-arrays-unchanged)$", "what": "Surrogates.twin_surrogates assigns self.embedding, which changes what twins() returns afterwards"},
  {"property": "C06", "match": r"^obligation:C06/MODIFIES/Surrogates\.(original_distribution|test_threshold_significance)$", "what": "Surrogates keeps the caller's array and test_threshold_significance/original_distribution normalise it in place (finding #11)"},
 ]
 json.dump({"_comment": "Known findings (genuine defects of pik-copan/pyunicorn recorded, not repaired) and repaired defects. `match` is a regular expression over the finding identifier printed by the check ('bounded:<check name>' or 'obligation:<obligation id>'). Never written at run time; regenerate with tools/gen_known.py.",
